@@ -281,7 +281,7 @@ def run_world(case, shared: bool):
     return out
 
 
-class CaseTimeout(Exception):
+class CaseTimeout(BaseException):
     pass
 
 
